@@ -24,6 +24,7 @@ type ruleSpec struct {
 	Inside  bool     `json:"inside"`  // a comment line that mentions SecRule sits inside the chain
 	Trail   string   `json:"trail"`   // white space after `" \` on operator lines
 	Actions []string `json:"actions"` // extra actions after the id line
+	Sep     string   `json:"sep,omitempty"` // white space between the directive name and the variables (default one blank)
 }
 
 type rulesCase struct {
@@ -72,7 +73,11 @@ func (c *rulesCase) render(override map[string]string) (string, map[string]int) 
 				operand = o
 			}
 			pos[key] = len(lines)
-			lines = append(lines, fmt.Sprintf(`%sSecRule REQUEST_COOKIES|ARGS_NAMES|ARGS|XML:/* "%s %s" \%s`, ind, op.Op, operand, r.Trail))
+			sep := r.Sep
+			if sep == "" {
+				sep = " "
+			}
+			lines = append(lines, fmt.Sprintf(`%sSecRule%sREQUEST_COOKIES|ARGS_NAMES|ARGS|XML:/* "%s %s" \%s`, ind, sep, op.Op, operand, r.Trail))
 			if k == 0 {
 				lines = append(lines, ind+`    "id:`+r.ID+`,\`)
 				lines = append(lines, ind+`    phase:2,\`, ind+`    block,\`)
@@ -131,14 +136,14 @@ func rulesGen(r *rand.Rand, lane string) *rulesCase {
 			continue
 		}
 		used[id] = true
-		rs := ruleSpec{ID: id, Trail: core.Pick(r, "", "", "", " ", "  ", "\t")}
+		rs := ruleSpec{ID: id, Trail: core.Pick(r, "", "", "", " ", "  ", "\t"), Sep: core.Pick(r, "", "", "", "\t", "  ", " \t")}
 		clen := 1 + r.Intn(4)
 		if core.Chance(r, 1, 2) {
 			clen = 1
 		}
 		for k := 0; k < clen; k++ {
 			op := core.Pick(r, "@rx", "@rx", "@rx", "!@rx", "@pm", "@streq", "@detectSQLi")
-			operand := core.Pick(r, "old", `^old\d+$`, `old\"x`, "a b", "", `(?i)o\x5cld`, "old @rx older", `name=\" \(x\)`, `a\" \.b\" \d`, `\$old_\d`)
+			operand := core.Pick(r, "old", `^old\d+$`, `old\"x`, "a b", "", `(?i)o\x5cld`, "old @rx older", `name=\" \(x\)`, `a\" \.b\" \d`, `\$old_\d`, "ARGS", "XML", "SecRule", "REQUEST_COOKIES", "S")
 			if !strings.HasSuffix(op, "rx") {
 				operand = core.Pick(r, "foo bar", "x", "")
 			}
@@ -550,8 +555,8 @@ func init() {
 		Rule: "generated rules files in CRS layout (1..6 rules, chains of length 0..3, ids sharing the 3-digit prefix and longer ids with the same leading digits, !@rx and non-rx operators, comments that quote ids and SecRule lines (hostile lane: also inside chains and in actions), LF/CRLF, with/without final newline, blanks after `\" \\`) with assembly files whose generated regexes contain $, escaped quotes, `\"@rx `-like text, spaces and backslashes; one update per case on a valid or invalid target, plus update --all on trees whose assembly files (rules and chained rules, so that NNNNNN-chainK.ra is walked right before NNNNNN.ra) are all valid (offset beyond the chain, non-rx operator, missing assembly file). " +
 			"Oracle: the harness renders the file itself, so the expected result is the original with exactly the addressed operand replaced by `regex generate`'s stdout, byte for byte; every other file of the snapshot unchanged; invalid targets must fail and change nothing. Non-trivial = update changed the file.",
 		Cases: func(env *core.Env, rng *rand.Rand) []core.Case {
-			cs := rulesCases(env, rng, 300, 6000)
-			for i, n := 0, env.N(100, 2000); i < n; i++ {
+			cs := rulesCases(env, rng, 900, 8000)
+			for i, n := 0, env.N(250, 2500); i < n; i++ {
 				// --all: keep only the assembly files that address an existing rx operator
 				c := rulesGen(rng, "plain")
 				c.Lane = "all"
@@ -580,10 +585,10 @@ func init() {
 			"Oracle: stored operand (cut out by the harness from the line it rendered) equals generate's stdout; compare exits 0 and says 'has not changed' after update; second update leaves the bytes unchanged; after the edit compare exits non-zero in both modes and says 'has changed'. (b) whole generated CRS trees: update --all -> compare --all in both modes (exit 0, every rule reported unchanged) -> one byte of one stored operand edited, the rule chosen anywhere in walk order -> compare --all -o github must fail, compare --all must name the rule as changed, single compare must fail. Non-trivial = complete history executed.",
 		Cases: func(env *core.Env, rng *rand.Rand) []core.Case {
 			var cs []core.Case
-			for _, c := range rulesCases(env, rng, 300, 6000) {
+			for _, c := range rulesCases(env, rng, 900, 8000) {
 				cs = append(cs, &c12Case{Single: c.(*rulesCase)})
 			}
-			for i, n := 0, env.N(80, 1500); i < n; i++ {
+			for i, n := 0, env.N(200, 2000); i < n; i++ {
 				p := projGen(rng)
 				for len(p.targets()) < 2 {
 					p = projGen(rng)
